@@ -315,6 +315,10 @@
 (declare-fun sig.parse (Bytes) github.com/btcsuite/btcd/btcec/v2/schnorr.Signature)
 (declare-fun sig.ok (github.com/btcsuite/btcd/btcec/v2/schnorr.Signature Bytes Pt) Bool)
 
+;@module nut20 strings
+; NUT-20 message: quote id followed by the B_ of every output in order
+(define-unfold cat.bm.B_ ((q Str) (a (Array Int cashu.BlindedMessage)) (n Int)) Str (ite (<= n 0) q (scat (cat.bm.B_ q a (- n 1)) (cashu.BlindedMessage.B_ (select a (- n 1))))))
+
 ;@module locks
 ;@ghost hvs.last Bool
 ;@ghost hvs.calls Int
